@@ -287,6 +287,7 @@ class _Env:
         self.restored = False     # ... and was put back (same bytes, same mtime)
         self.fault_kind = None
         self.reads_total = 0
+        self.truth_via = {}
         self.step_op = None
 
     # -- klass (input class / mechanism, low cardinality) ------------------------------
@@ -437,8 +438,8 @@ class _Env:
         seq = [l for l in (order if order is not None else m.labels) if l in loaded]
         seq += [l for l in m.labels if l in loaded and l not in seq]
         via = dict(m.memo)
-        via.update(fallback_via or {})
         via.update(m.via)
+        via.update(fallback_via or {})  # what the step established about the Frames really held (see _do_step_inner)
         m.lru.clear()
         for l in seq:
             m.lru[l] = None
@@ -766,9 +767,16 @@ def _execute(env, bus, step, partial):
 def _do_step(env, ctx, case_fp, si, step):
     entry = env.entries[step['bus']]
     before = len(env.entries)
+    env.truth_via = {}
     try:
         _do_step_inner(env, ctx, case_fp, si, step, entry)
     finally:
+        # the store log is authoritative for how the Frames really held were obtained (the model may have "loaded" a
+        # label through an accessor that bypasses the cache: see the get / iter_element findings)
+        mm = entry.model
+        for l in mm.lru:
+            if l in env.truth_via:
+                mm.via[l] = mm.memo[l] = env.truth_via[l]
         out = G.result_labels(step, entry.model.labels)
         if out is not None and len(env.entries) == before:
             # the step did not hand back its Bus (it raised, or returned something else): keep the numbering of the
@@ -845,6 +853,12 @@ def _do_step_inner(env, ctx, case_fp, si, step, entry):
             ctx.tally('store_api', 'read_many_yield')
         elif e[0] == 'read_refused':
             ctx.tally('store_api', 'read_refused_' + e[1])
+    # provenance of the Frames really held after the step: unchanged for those loaded at its start and not read again,
+    # the step's own access kind for those the store log shows as read
+    truth_via = dict(pre.via)
+    for l in reads:
+        truth_via[l] = m.via.get(l) or m.memo.get(l, 'unknown')
+    env.truth_via = truth_via
     held_bug_class = any(v == 'multi_mp1' and not env.label_config_is_default(l) for l, v in pre.via.items())
     kl_extra = dict(bus='derived' if derived else 'root', multi_mp1_nondefault_config=via_bug_class or held_bug_class,
                     ghost_lru_entry=entry.ghost)
@@ -885,14 +899,14 @@ def _do_step_inner(env, ctx, case_fp, si, step, entry):
     if exc is not None:
         ctx.violation('valid_access_raised', detail={'exception': type(exc).__name__, 'message': str(exc)[:300]},
                       klass=env.klass(exception=type(exc).__name__, **kl_extra))
-        env.resync(entry, pre.via)
+        env.resync(entry, truth_via)
         return
     if env.faulted and accessed:
         ctx.tally('fault_outcome', 'served_from_cache')
 
     # ---- results -------------------------------------------------------------------------------------------
     ok = True
-    held = _Via({**m.via, **pre.via})  # how each Frame that may be handed out in this step was obtained
+    held = _Via({**m.via, **truth_via})  # how each Frame that may be handed out in this step was obtained
     if op in _SINGLE:
         ok = env.check_frame(groups[0][0][0], result, held, 'element')
     elif op == 'get':
@@ -953,7 +967,7 @@ def _check_loaded_only(env, ctx, entry, kl_extra):
     if loaded != entry.model.loaded:
         ctx.violation('loaded_set_mismatch', detail={'model': sorted(map(repr, entry.model.loaded)), 'observed': sorted(map(repr, loaded))},
                       klass=env.klass(at='after_refused_read', **kl_extra))
-        env.resync(entry)
+        env.resync(entry, env.truth_via)
 
 
 def _check_state(env, ctx, entry, pre, result_ok, kl_extra):
@@ -964,7 +978,6 @@ def _check_state(env, ctx, entry, pre, result_ok, kl_extra):
     unreliable = _unreliable(env, entry)
     judged_order = not unreliable and not env.faulted and m.max_persist is not None
     reported = False
-    pre_via = dict(pre.via)
     scratch = pre
     for o in env.obs:
         if o['entry'] is not entry or o['raised']:
@@ -993,7 +1006,7 @@ def _check_state(env, ctx, entry, pre, result_ok, kl_extra):
             ctx.violation('lru_order_mismatch', detail={'at': 'step end', 'model': [repr(l) for l in m.order()],
                                                          'observed': [repr(l) for l in order]}, klass=env.klass(at='step_end', **kl_extra))
     if loaded != m.loaded or (m.max_persist is not None and order != m.order()):
-        env.resync(entry, pre_via)  # later steps are judged from the state actually reached (no cascades)
+        env.resync(entry, env.truth_via)  # later steps are judged from the state actually reached (no cascades)
 
 
 def _register_derived(env, ctx, entry, step, result, kl_extra):
@@ -1003,6 +1016,9 @@ def _register_derived(env, ctx, entry, step, result, kl_extra):
     m = entry.model
     exp_labels = G.result_labels(step, m.labels)
     dm = m.derive(exp_labels, tag=step['op'])
+    for l in dm.via:
+        if l in env.truth_via:
+            dm.via[l] = dm.memo[l] = env.truth_via[l]
     if not isinstance(result, sf.Bus):
         ctx.violation('derivation_not_a_bus', detail={'got': canon.brief(result, 200)}, klass=env.klass(**kl_extra))
         return False
@@ -1034,7 +1050,7 @@ def _register_derived(env, ctx, entry, step, result, kl_extra):
                                                          'observed': [repr(l) for l in order]}, klass=env.klass(at='derived', **kl_extra))
             ok = False
     if loaded != dm.loaded or (order is not None and order != dm.order()):
-        env.resync(new)
+        env.resync(new, env.truth_via)
     return ok
 
 
